@@ -239,6 +239,11 @@ class PVLDecoder(object):
         of the various numerical values, cast them to the appropriate
         numerical types, and do something useful with them.
         """
+        if not str(value).isascii():
+            # strptime() also takes characters like "\u0663" or "\uff12"
+            # for digits, which they are not in any PVL dialect.
+            raise ValueError
+
         try:
             # datetime.date objects will always be naive, so just return:
             return for_try_except(
